@@ -705,3 +705,22 @@ Definition check_b (table : list (string * string)) (method : string) (seed base
            (addr count : N) (exp : hres) (windows : list (N * N * N)) : bool :=
   let '(r, m') := fvs_call table method (mem_init seed) base size buf addr count in
   res_heqb r exp && windows_ok m' windows.
+
+(* virtio case with a non-empty initial dirty log (pages in [dirty0] are marked before the run) *)
+Definition dirty_of (l : list N) : dirty := fun p => existsb (N.eqb p) l.
+Definition check_vd (seed : N) (regions : list (N * N)) (ds : list desc) (dirty0 : list N) (ops : list vop)
+           (exp_init : hres) (exp : list hobs) (windows : list (N * N * N))
+           (marked universe : list N) : bool :=
+  let '(r, st0) := v_init seed regions ds in
+  let st := mkv (v_mem st0) (dirty_of dirty0) (v_rd st0) (v_wr st0) in
+  match r with
+  | ROk _ _ =>
+      res_heqb r exp_init &&
+      let o0 := match v_rd st, v_wr st with
+                | rd :: _, wr :: _ => mkobs (ROk 0 []) (avail rd) (consumed rd) (avail wr) (consumed wr)
+                | _, _ => obs_bad
+                end in
+      let '(os, st') := vrun ops st in
+      obs_list_heqb (o0 :: os) exp && windows_ok (v_mem st') windows && dirty_ok (v_dirty st') marked universe
+  | _ => res_heqb r exp_init
+  end.
